@@ -95,7 +95,12 @@ def i_constr(F, res):
             x = ints[0]
             lo_dom, hi_dom = INT_TYPES[f["locals"][x]]
             try:
-                table = pw.summarize(f, x, lo_dom, hi_dom)
+                # the mapping may sit in a small helper (`let (tag, any) = constr_tag(index);`): summarise with helpers inlined
+                def want_c(t_, callee):
+                    return callee["crate"] == "tx3_cardano" and not callee.get("impl_trait") and not callee.get("trait_default") and len(callee["blocks"]) <= 60
+                _KEEP_B.append(want_c)
+                fi = mir.inline_calls(F, f, want=want_c, depth=2)
+                table = pw.summarize(fi if fi.get("inlined") else f, x, lo_dom, hi_dom)
             except pw.NotInFragment as e:
                 res.add([assumption("I-CONSTR", key, w, "tag mapping outside the piecewise-affine fragment (%s): not decided" % e)])
                 continue
